@@ -62,6 +62,14 @@ Theorem C17_import_refuses_malformed : forall (hashf : src -> N) (bsz : nat) (ck
   startup hashf bsz ckh ckhash genesis true [] (Some (hdr :: recs)) = (false, []).
 Proof. exact refuses_malformed_row. Qed.
 
+(* ... whatever the index of the bad row - the first row of an import batch (index k * bsz, where the
+   failing batch has read nothing yet) included *)
+Theorem C17_import_refuses_bad_row_any_index : forall (hashf : src -> N) (bsz : nat) (ckh : Z) (ckhash : N) (genesis : xrow),
+  (0 < bsz)%nat -> forall (hdr : record) (recs : list record) (i : nat) (bad : record),
+  nth_error recs i = Some bad -> good_record (List.length hdr) bad = false ->
+  startup hashf bsz ckh ckhash genesis true [] (Some (hdr :: recs)) = (false, []).
+Proof. exact refuses_bad_row_any_index. Qed.
+
 (* (2) no readable file, or a file without even the column line *)
 Theorem C17_import_refuses_missing : forall (hashf : src -> N) (bsz : nat) (ckh : Z) (ckhash : N) (genesis : xrow),
   startup hashf bsz ckh ckhash genesis true [] None = (false, []) /\
@@ -136,6 +144,7 @@ Print Assumptions C17_roundtrip_startup.
 Print Assumptions C17_export_selects_longest.
 Print Assumptions C17_export_depends_on_store_only.
 Print Assumptions C17_import_refuses_malformed.
+Print Assumptions C17_import_refuses_bad_row_any_index.
 Print Assumptions C17_import_refuses_missing.
 Print Assumptions C17_import_refuses_no_rows.
 Print Assumptions C17_import_refuses_wrong_count.
